@@ -616,13 +616,15 @@ def run_smooth(cfg):
     jobs = []
     for lo in (LS_OPTS if horizon == 'short' else LS_OPTS[:2]):
         starts = _starts(n) if horizon == 'short' else _starts(n)[:3]
+        if 'alpha' in lo or 'max_num_iter' in lo:
+            starts = starts[::3]        # the rarer options on a third of the starts
         for x0 in starts:
             jobs.append((lo, x0, None))
         if horizon == 'short' and lo['estimate_step']:
             # ONE line-search object reused across several solver calls (it remembers its last
             # step): every call must still only take steps that decrease the objective
             shared = odl.solvers.BacktrackingLineSearch(f, **lo)
-            for x0 in starts[::2]:
+            for x0 in starts[:9:3] if len(starts) >= 9 else starts:
                 jobs.append((lo, x0, shared))
     for lo, x0, shared in jobs:
         if True:
@@ -1232,7 +1234,7 @@ FAMS = {
                    blocks=[('l1', 1.0, 'D', 'nat', 0.5)], xv=XV, solvers=[FBPD, DR]),
     'env_two': dict(X=['rn3'], f=('l2sq', 0.5), absorb='f_shift',
                     blocks=[('l1', 1.0, 'D', 'nat', 0.5), ('l1', 0.5, 'I', 'pat', 0.5)], xv=XV,
-                    solvers=[FBPD, DR]),
+                    solvers=[FBPD, DR], thorough_only=True),
     # the same as three-term problem: box constraint + envelope + smooth 1/2||x-a||^2
     'env_h': dict(X=['rn3'], f=('box', -1.0, 2.0), absorb='h_shift', h=('l2sq', 0.5),
                   blocks=[('l1', 1.0, 'D', 'nat', 0.5)], xv=XV, solvers=[FBPD]),
@@ -1836,6 +1838,8 @@ def configs(tier):
     for fam, F in FAMS.items():
         lst = []
         per_fam.append(lst)
+        if F.get('thorough_only') and not thorough:
+            continue
         for xi, X in enumerate(F['X']):
             if not thorough and xi > 0 and fam not in ('fused',):
                 continue
@@ -1969,6 +1973,17 @@ def meta(tier):
             'power_method_self_reference': 'MultiplyOperator(w) and M * MultiplyOperator(w), w in '
                                            '{-1/2, 1/4, 2}^n, started at the element w itself; '
                                            'xstart must be bit-identical afterwards',
+            'infimal_convolution_families': 'env_tv / env_two / env_h: l_i = 1/2||.||^2 passed as '
+                                            '`l` to forward_backward_pd (sigma in {0.5, 1.25}, tau '
+                                            'shrunk until the step condition holds under every '
+                                            'reading of the docstring) and douglas_rachford_pd',
+            'proximal_gradient_lam': [1.0, 0.5, 1.25, 'k -> 1/2 + 1/(2(k+1))',
+                                      'k -> 1/(k+1) (fixed point only)'],
+            'line_search_lattice': 'BacktrackingLineSearch options x all smooth solvers, fresh '
+                                   'object per call and ONE object reused across starts '
+                                   '(estimate_step=True); ConstantLineSearch / float / '
+                                   'LineSearchFromIterNum with steps in (0, 2/Lip) for '
+                                   'steepest_descent on the quadratic objectives',
             'cg_iterations': 'n + 2', 'cgn_iterations': 'n + 2', 'landweber_iterations': 8,
             'kaczmarz_sweeps': 3,
             'landweber_omega*|A|^2': LW_OMEGA + ['default'],
@@ -2025,8 +2040,11 @@ def meta(tier):
             'with a margin exists' % K_ACC,
             'kaczmarz random=True: numpy.random seeded from the configuration; the invariant '
             'holds for every order of the operators',
-            'unreached anchor lines: argument validation raises, the l_i terms of DR / FBPD and DR without operators, '
-            'projection= of landweber/kaczmarz/steepest_descent, random=True of kaczmarz, '
+            'the thorough configurations are ordered breadth first (the quick set, then deeper '
+            'variants), so a run cut by the time budget (reported under caps_hit, exhaustive '
+            'false) loses only the deepest variants',
+            'unreached anchor lines: argument validation raises, DR without operators, callable '
+            'lam of DR, projection= of landweber/kaczmarz/steepest_descent, '
             'maxiter=None / callback of the power method, NaN / non-finite guards of the line '
             'search',
             'Lyapunov / Fejer monotonicity (pdhg metric, proximal-gradient objective) is a '
